@@ -19,6 +19,7 @@
 import select
 import socket
 import struct
+import threading
 
 from paramiko import util
 from paramiko.common import DEBUG, byte_chr, byte_ord
@@ -135,6 +136,9 @@ class BaseSFTP:
         self.logger = util.get_logger("paramiko.sftp")
         self.sock = None
         self.ultra_debug = False
+        # requests are sent from several threads (prefetch); a packet may need
+        # more than one sock.send, so sending one is a critical section
+        self._send_lock = threading.Lock()
 
     # ...internals...
 
@@ -206,7 +210,8 @@ class BaseSFTP:
         out = struct.pack(">I", len(packet) + 1) + byte_chr(t) + packet
         if self.ultra_debug:
             self._log(DEBUG, util.format_binary(out, "OUT: "))
-        self._write_all(out)
+        with self._send_lock:
+            self._write_all(out)
 
     def _read_packet(self):
         x = self._read_all(4)
